@@ -29,6 +29,7 @@ const MainName = "<main>"
 func CreateBytecodeCompiler(parent *BytecodeCompiler, checker types.Checker, loc *position.Location, errors *diagnostic.SyncDiagnosticList, additionalAbortChecks bool) *BytecodeCompiler {
 	compiler := NewBytecodeCompiler(loc.FilePath, topLevelBytecodeCompilerMode, loc, checker, newBytecodeGlobalData())
 	compiler.additionalAbortChecks = additionalAbortChecks
+	compiler.globalData.additionalAbortChecks = additionalAbortChecks
 	compiler.Errors = errors
 	compiler.parent = parent
 	return compiler
@@ -49,6 +50,7 @@ func CreateBreakpointCompiler(checker types.Checker, context *BytecodeBreakpoint
 func (c *BytecodeCompiler) CreateMainCompiler(checker types.Checker, loc *position.Location, errors *diagnostic.SyncDiagnosticList, output io.Writer, additionalAbortChecks bool) Compiler {
 	compiler := NewBytecodeCompiler(loc.FilePath, topLevelBytecodeCompilerMode, loc, checker, newBytecodeGlobalData())
 	compiler.additionalAbortChecks = additionalAbortChecks
+	compiler.globalData.additionalAbortChecks = additionalAbortChecks
 	compiler.predefinedLocals = c.maxLocalIndex + 1
 	compiler.scopes = c.scopes
 	compiler.lastLocalIndex = c.lastLocalIndex
@@ -248,6 +250,8 @@ func newBytecodeCall(methodName value.Symbol, bytecode *vm.BytecodeFunction, off
 
 type bytecodeGlobalData struct {
 	callsToOptimise *concurrent.Slice[*bytecodeCall]
+	// compile additional abort checks in every method, closure and namespace body, not just at the top level
+	additionalAbortChecks bool
 }
 
 func newBytecodeGlobalData() *bytecodeGlobalData {
@@ -298,6 +302,8 @@ func NewBytecodeCompiler(name string, mode bytecodeCompilerMode, loc *position.L
 		checker:        checker,
 		globalData:     globalData,
 		Errors:         diagnostic.NewSyncDiagnosticList(),
+
+		additionalAbortChecks: globalData.additionalAbortChecks,
 	}
 	// reserve the first slot on the stack for `self`
 	c.defineLocal("$self", position.DefaultLocation)
